@@ -605,7 +605,12 @@ PROBES = [
     ("new-member-callee", "var ns = {K: function (a) { this.a = a; }}; new ns.K(3).a", 3),
     ("integer-key-order", "var o = {b: 1}; o[1] = 2; Object.keys(o).join()", "1,b"),
     ('builtin-arrays-have-no-prototype', "[[1].slice() instanceof Array, JSON.parse('[1]') instanceof Array, Object.getPrototypeOf('a,b'.split(',')) === Array.prototype].join()", 'true,true,true'),
-    ("booleans-have-no-number-methods", "[typeof true.toFixed, typeof false.toPrecision, true.toString(), false.valueOf(), typeof (5).toFixed].join()", "undefined,undefined,true,false,function"),
+    ("results-of-built-ins-inherit-from-Object.prototype", "[JSON.parse('{}') instanceof Object, Object.getPrototypeOf(JSON.parse('{\"a\":{}}').a) === Object.prototype, Object.getOwnPropertyDescriptor({a: 1}, 'a') instanceof Object,"
+     " Object.getPrototypeOf(Object.prototype) === null, Object.getPrototypeOf(Object.assign(Object.create(null), {a: {}})) === null, Object.getPrototypeOf({__proto__: null}) === null,"
+     " (function () { var n = {__proto__: null}; Object.entries({k: n}); JSON.stringify([n]); return Object.getPrototypeOf(n) === null && typeof n.toString })()].join()", "true,true,true,true,true,true,undefined"),
+    ("anonymous-functions-are-named-after-their-variable", "var f = function () {}; var g = () => 1; var h; h = function () {}; var o = {m: function () {}, a: () => 1}; var n = function named() {};"
+     " [f.name, g.name, h.name, o.m.name, o.a.name, n.name, (function () {}).name, typeof (function () { return typeof f2 })()].join()", "f,g,h,m,a,named,,string"),
+    ("booleans-have-no-number-methods", "[typeof true.toFixed, typeof false.toPrecision, true.toString(), false.valueOf(), typeof (5).toFixed, true.toString.call(false)].join()", "undefined,undefined,true,false,function,false"),
     ("delete-recreate-order", "var o = {b: 2, c: 3}; delete o.b; o.b = 4; Object.keys(o).join()", "c,b"),
     ("delete-recreate-order-accessor", "var o = {get a() { return 1; }, b: 2, c: 3}; delete o.b; o.b = 4; var ks = []; for (var k in o) ks.push(k); Object.keys(o).join() + '|' + ks.join() + '|' + JSON.stringify(Object.entries(o))",
      'a,c,b|a,c,b|[["a",1],["c",3],["b",4]]'),
@@ -658,7 +663,8 @@ def c_set_prototype_of(obj: Obj("JSObject"), proto: Obj("JSObject")):
     else:
         check("links.returns-the-object", r[0] == "ret" and same_ref(r[1], obj))
         check("links.prototype-is-the-argument", same_ref(obj._prototype, proto))
-        check("links.nothing-else-changes", heap_unchanged(snap, (obj, "_prototype")))
+        check("links.no-longer-without-prototype", obj._null_prototype is False)
+        check("links.nothing-else-changes", heap_unchanged(snap, (obj, "_prototype"), (obj, "_null_prototype")))
 
 
 def _native_set_prototype_of():
